@@ -52,7 +52,7 @@ def run(ctx):
         "DevCounterLeakOnOpenFail": dict(topo="chain", ntun=1, dev=["DevCounterLeakOnOpenFail"], ops=("fail",), maxf=0, invs=INV17),
     }
     site_cfg = {"relay": dict(topo="fanin", ops=("disc",), maxf=0, invs="BookkeepingEmpty"),
-                "exit": dict(topo="vee", ops=(), maxf=0, invs="BookkeepingEmpty")}
+                "exit": dict(topo="vee", ops=("tclose",), maxf=0, invs="BookkeepingEmpty")}
     thunks = []
     for i, inst in enumerate(ideal_insts):
         thunks.append(lambda i=i, inst=inst: R.tlc(ctx, "ideal%d" % i, R.cfg(
@@ -65,11 +65,10 @@ def run(ctx):
         thunks.append(lambda site=site, c=c: R.deviation(ctx, "sid_" + site, c["topo"], keying="sid", sites=[site], ops=c["ops"],
                                                          maxf=c["maxf"], invs=c["invs"]))
     rel_specs = [("chain", "tcp", dict(ntun=1, ops=("tclose", "fail", "disc"), maxf=1, maxr=0)),
-                 ("fanin", "tcp", dict(ops=("disc",), maxf=0, maxr=0)),
                  ("vee", "forward", dict(ops=("fail",), maxf=0, maxr=0))]
     if not q:
         rel_specs = [("chain", "tcp", dict(ntun=1, ops=("tclose", "fail", "disc", "reset", "rev", "cancel"), maxf=1, maxr=1)),
-                     ("fanin", "tcp", dict(ops=("disc", "fail"), maxf=0, maxr=0)),
+                     ("fanin", "tcp", dict(ops=("disc",), maxf=0, maxr=0)),
                      ("vee", "forward", dict(ops=("fail", "tclose"), maxf=0, maxr=0)),
                      ("vee", "tcp", dict(ops=("fail", "disc"), maxf=0, maxr=0)),
                      ("fork", "tcp", dict(ops=("disc",), maxf=0, maxr=0))]
@@ -121,6 +120,8 @@ def run(ctx):
     hist = {
         "chain-disc-ingress": ("chain", ["open 1", "send 1", "open 2", "disc A T"]),
         "chain-disc-exit": ("chain", ["open 1", "open 2", "send 2", "disc T X"]),
+        # both neighbours of the transit vanish: nobody is left to send a close, only the disconnect handling can clean up
+        "chain-disc-both": ("chain", ["open 1", "send 1", "open 2", "disc A T", "disc T X"]),
         "chain-mixed": ("chain", ["open 1", "failopen 2", "send 1", "rsend 1", "reset 1"]),
         "fanin-collide-disc": ("fanin", ["open 1", "open 2", "close 1", "close 2", "disc A T", "disc B T"]),
         "vee-collide": ("vee", ["open 1", "open 2", "close 1", "close 2"]),
